@@ -165,8 +165,13 @@ func collectVarLinks(v *ast.Value, seen map[string]bool, out *ast.VariableDefini
 	}
 }
 
-func collectSites(doc *ast.QueryDocument) []argSite {
+// collectSites: the field and directive sites of the execution of operation `only` — its own
+// directives, those of its variable definitions, its selection set and the fragments it reaches
+// through spreads; with only == nil every site of the document.
+func collectSites(doc *ast.QueryDocument, only *ast.OperationDefinition) []argSite {
 	var sites []argSite
+	reached := map[string]bool{}
+	var order []string
 	var dirs func(ds ast.DirectiveList, where string)
 	var sels func(ss ast.SelectionSet)
 	dirs = func(ds ast.DirectiveList, where string) {
@@ -196,6 +201,10 @@ func collectSites(doc *ast.QueryDocument) []argSite {
 				sels(f.SelectionSet)
 			case *ast.FragmentSpread:
 				dirs(f.Directives, "spread "+f.Name)
+				if !reached[f.Name] {
+					reached[f.Name] = true
+					order = append(order, f.Name)
+				}
 			case *ast.InlineFragment:
 				dirs(f.Directives, "inline fragment")
 				sels(f.SelectionSet)
@@ -203,11 +212,23 @@ func collectSites(doc *ast.QueryDocument) []argSite {
 		}
 	}
 	for _, o := range doc.Operations {
+		if only != nil && o != only {
+			continue
+		}
 		dirs(o.Directives, "operation "+o.Name)
 		for _, v := range o.VariableDefinitions {
 			dirs(v.Directives, "variable "+v.Variable)
 		}
 		sels(o.SelectionSet)
+	}
+	if only != nil {
+		for i := 0; i < len(order); i++ { // `order` grows while fragments are walked
+			if f := doc.Fragments.ForName(order[i]); f != nil {
+				dirs(f.Directives, "fragment "+f.Name)
+				sels(f.SelectionSet)
+			}
+		}
+		return sites
 	}
 	for _, f := range doc.Fragments {
 		dirs(f.Directives, "fragment "+f.Name)
@@ -279,7 +300,11 @@ func opArgMapGo(a []string) string {
 		vars = res
 	}
 	var out []string
-	for _, st := range collectSites(doc) {
+	var executed *ast.OperationDefinition
+	if idx >= 0 && idx < len(doc.Operations) {
+		executed = doc.Operations[idx]
+	}
+	for _, st := range collectSites(doc, executed) {
 		var opDefs ast.VariableDefinitionList = ast.VariableDefinitionList{}
 		if idx >= 0 && idx < len(doc.Operations) && doc.Operations[idx].VariableDefinitions != nil {
 			opDefs = doc.Operations[idx].VariableDefinitions
